@@ -48,30 +48,117 @@ def collision_cases(rng, n):
     return out
 
 
-def run(ctx):
-    n = 160 if ctx.tier == "quick" else 3000
-    seeds = [0, 1, 2, 3, 7, 42, 1234, 99999] if ctx.tier == "quick" else list(range(48)) + [2 ** 31 - 1, 4294967295]
-    cases = [gencalls.gen_call(ctx.rng) for _ in range(n)] + collision_cases(ctx.rng, n // 4)
-    fam = {}
-    for c in cases:
-        fam[c.family] = fam.get(c.family, 0) + 1
-        ctx.distinct.add(c.op + "|" + c.desc)
-    payload = [(c.op, c.desc, c.arrays, {**c.size_kwargs(), **c.extra_kwargs}) for c in cases]
-    tmp = tempfile.mkdtemp(prefix="c16_", dir=os.path.join(common.VERIF, "work") if os.path.isdir(os.path.join(common.VERIF, "work")) else None)
+def tie_cases(rng, n):
+    """element-wise calls without '->' in which several inputs are equally good candidates for the output
+    (every process must take the same decision: the same exception class or the same values)"""
+    out = []
+    g = gencalls.G(rng)
+    while len(out) < n:
+        axes = g.pick_axes(rng.randint(2, 3), maxprod=60, sizes=[2, 3, 4])
+        k = rng.choice([2, 2, 3])
+        ins = [g.perm(axes) for _ in range(k)]
+        if rng.random() < 0.3:
+            ins[-1] = ins[-1][:-1] or ins[-1]            # one proper sub-expression among the tied ones
+        op = rng.choice(["add", "multiply", "maximum", "subtract", "where"] if k == 3 else ["add", "multiply", "maximum", "subtract", "less"])
+        if op == "where" and k != 3:
+            continue
+        arrays = [gencalls.int_data(rng, gencalls.shape_of(t), 1, 50, ramp=True) for t in ins]
+        if op == "where":
+            arrays[0] = arrays[0] % 2 == 0
+        desc = ", ".join(" ".join(a.name for a in t) for t in ins)
+        out.append({"op": op, "desc": desc, "arrays": arrays, "kw": {}, "family": "implicit_output_tie"})
+    return out
+
+
+def shorthand_cases(rng, n):
+    """the short forms of generated calls (implicit output, automatic brackets, ellipsis, numbers, ...):
+    every default that einx fills in must be filled in the same way in every process"""
+    from . import c07
+    out = []
+    for it in c07.make_items(rng, n):
+        c, name, sd, skw, ld, lkw = it
+        kw = {**c.size_kwargs(), **c.extra_kwargs}
+        fn, arrays = c.op, c.arrays
+        for k, v in skw.items():
+            if k == "__drop__":
+                for nm in v:
+                    kw.pop(nm, None)
+            elif k == "__fn__":
+                fn = v
+            elif k == "__arrays__":
+                arrays = v
+            else:
+                kw[k] = v
+        out.append({"op": fn, "desc": sd, "arrays": arrays, "kw": kw, "family": "shorthand:" + name})
+    return out
+
+
+def factory_cases(rng, n):
+    """the same call with tensor factories of one Python type but different signatures, in a process-dependent order"""
+    out = []
+    g = gencalls.G(rng)
+    while len(out) < n:
+        axes = g.pick_axes(2, maxprod=40, sizes=[2, 3, 4])
+        sub = [axes[rng.randrange(2)]]
+        x = gencalls.int_data(rng, gencalls.shape_of(axes), 1, 50, ramp=True)
+        desc = " ".join(a.name for a in axes) + ", " + sub[0].name
+        op = rng.choice(["add", "multiply"])
+        for kind in rng.sample(["plain", "named", "kwargs", "sig"], 3):
+            out.append({"op": op, "desc": desc, "arrays": [x, "factory:" + kind], "kw": {}, "family": "factory:" + kind})
+    return out
+
+
+def record_of(e):
+    return {"op": e["op"], "desc": e["desc"], "kwargs": {k: (list(v) if isinstance(v, tuple) else v) for k, v in e["kw"].items()},
+            "shapes": [list(np.shape(a)) if not isinstance(a, str) else a for a in e["arrays"]], "family": e["family"]}
+
+
+def seeds_of(tier):
+    return [0, 1, 2, 3, 7, 42, 1234, 99999] if tier == "quick" else list(range(48)) + [2 ** 31 - 1, 4294967295]
+
+
+def build_cases(rng, tier):
+    n = 160 if tier == "quick" else 3000
+    gen = [gencalls.gen_call(rng) for _ in range(n)] + collision_cases(rng, n // 4)
+    cases = [{"op": c.op, "desc": c.desc, "arrays": c.arrays, "kw": {**c.size_kwargs(), **c.extra_kwargs}, "family": c.family} for c in gen]
+    cases += tie_cases(rng, n // 4) + shorthand_cases(rng, n // 2) + factory_cases(rng, n // 8)
+    return cases
+
+
+def run_workers(cases, seeds, which=None):
+    payload = [(c["op"], c["desc"], c["arrays"], c["kw"]) for c in cases]
+    tmp = tempfile.mkdtemp(prefix="c16_")
     pk = os.path.join(tmp, "cases.pkl")
     with open(pk, "wb") as f:
         pickle.dump(payload, f)
-    procs = []
+    procs, outs, crashed = [], {}, []
     for i, s in enumerate(seeds):
+        if which is not None and i not in which:
+            continue
         env = dict(os.environ, PYTHONHASHSEED=str(s), EINX_REPO=common.REPO)
         procs.append((s, subprocess.Popen([sys.executable, WORKER, pk, str(i)], stdout=subprocess.PIPE, stderr=subprocess.PIPE, text=True, env=env)))
-    outs = {}
     for s, p in procs:
         o, e = p.communicate(timeout=3000)
         if p.returncode != 0:
-            ctx.tie_breaks.append({"correspondence": "hash-seed worker crashed", "seed": s, "stderr": e[-1500:]})
+            crashed.append((s, e[-1500:]))
             continue
         outs[s] = json.loads(o)
+    for f in os.listdir(tmp):
+        os.remove(os.path.join(tmp, f))
+    os.rmdir(tmp)
+    return outs, crashed
+
+
+def run(ctx):
+    seeds = seeds_of(ctx.tier)
+    cases = build_cases(ctx.rng, ctx.tier)
+    fam = {}
+    for c in cases:
+        fam[c["family"]] = fam.get(c["family"], 0) + 1
+        ctx.distinct.add(c["op"] + "|" + c["desc"])
+    outs, crashed = run_workers(cases, seeds)
+    for sd, err in crashed:
+        ctx.tie_breaks.append({"correspondence": "hash-seed worker crashed", "seed": sd, "stderr": err})
     ref_seed = seeds[0]
     ref = outs.get(ref_seed)
     if ref is not None:
@@ -79,41 +166,63 @@ def run(ctx):
             for k, (a, b) in enumerate(zip(ref["digests"], o["digests"])):
                 if a != b:
                     c = cases[k]
-                    ctx.report({"kind": "differs_across_hash_seeds", "family": c.family, "op": c.op},
-                               {"call": c.record(), "inputs": [np.asarray(x).tolist() for x in c.arrays], "seed_a": ref_seed, "seed_b": s,
-                                "result_a": ref["values"][k], "result_b": o["values"][k]})
+                    ctx.report({"kind": "differs_across_processes", "family": c["family"].split(":")[0], "op": c["op"]},
+                               {"call": record_of(c), "inputs": [np.asarray(x).tolist() if not isinstance(x, str) else x for x in c["arrays"]],
+                                "seed_a": ref_seed, "seed_b": s, "process_a": 0, "process_b": seeds.index(s),
+                                "result_a": ref["values"][k], "result_b": o["values"][k], "case_index": k,
+                                "corpus": {"verif_seed": ctx.seed, "tier": ctx.tier},
+                                "note": "each process runs the whole corpus in its own shuffled order under its own PYTHONHASHSEED"})
             for k in o["graph_text_unstable"]:
-                ctx.report({"kind": "graph_text_differs_within_process", "family": cases[k].family}, {"call": cases[k].record(), "seed": s})
+                ctx.report({"kind": "graph_text_differs_within_process", "family": cases[k]["family"]}, {"call": record_of(cases[k]), "seed": s})
             for k in o["repeat_unstable"]:
-                ctx.report({"kind": "repeat_differs_within_process", "family": cases[k].family}, {"call": cases[k].record(), "seed": s})
-    for f in os.listdir(tmp):
-        os.remove(os.path.join(tmp, f))
-    os.rmdir(tmp)
-    for c in cases[:4]:
-        ctx.sample(c.record())
+                ctx.report({"kind": "repeat_differs_within_process", "family": cases[k]["family"]}, {"call": record_of(cases[k]), "seed": s})
+    for c in cases[:2] + cases[-2:]:
+        ctx.sample(record_of(c))
+    exc = {}
+    if ref is not None:
+        for d in ref["digests"]:
+            if d.startswith("EXC:"):
+                exc[d[4:]] = exc.get(d[4:], 0) + 1
     ctx.coverage.update({
         "evaluations": len(cases) * len(outs) * 2,
-        "rule": "generated calls (+ update_at calls with deliberately colliding coordinates) executed in one fresh process per "
-                "PYTHONHASHSEED value, shuffled order, some repeated 3x, graph=True twice; distinct_nontrivial = distinct (op, description)",
-        "input_distribution": {"family": fam, "hash_seeds": seeds, "processes_completed": len(outs)},
+        "rule": "generated calls, update_at calls with deliberately colliding coordinates, element-wise calls with tied implicit outputs, "
+                "short forms of generated calls, and calls with tensor factories of equal type but different signatures, executed in one "
+                "fresh process per PYTHONHASHSEED value, each process in its own shuffled order, some calls repeated 3x, graph=True twice; "
+                "distinct_nontrivial = distinct (op, description)",
+        "input_distribution": {"family": fam, "hash_seeds": seeds, "processes_completed": len(outs), "exception_classes_in_reference_process": exc},
     })
 
 
 def replay(ctx, path):
+    import random
     data = json.load(open(path))
     print(json.dumps({k: data.get(k) for k in ("tags", "call", "seed_a", "seed_b", "result_a", "result_b")}, indent=1)[:3000])
     call = data.get("call")
     if not call:
         return 1
-    code = ("import sys, json, numpy as np; sys.path.insert(0, %r); import einx; d=json.load(open(%r)); c=d['call']; "
-            "kw={k:(tuple(v) if isinstance(v,list) else v) for k,v in c['kwargs'].items()}; "
-            "print(np.asarray(getattr(einx,c['op'])(c['desc'], *[np.array(a) for a in d['inputs']], **kw)).tolist())") % (common.REPO, path)
-    res = set()
-    for s in [data.get("seed_a", 0), data.get("seed_b", 1), 5, 6, 7, 8]:
-        o = subprocess.run([sys.executable, "-c", code], env=dict(os.environ, PYTHONHASHSEED=str(s)), capture_output=True, text=True)
-        print("PYTHONHASHSEED", s, "->", o.stdout.strip()[:300], o.stderr.strip()[-200:])
-        res.add(o.stdout.strip())
-    if len(res) > 1:
-        print(f"VIOLATION property=C16 replay={path}")
-        return 1
+    if not any(isinstance(a, str) for a in data.get("inputs", [])):
+        # 1. the call alone, in fresh processes under several hash seeds
+        code = ("import sys, json, numpy as np; sys.path.insert(0, %r); import einx; d=json.load(open(%r)); c=d['call']; "
+                "kw={k:(tuple(v) if isinstance(v,list) else v) for k,v in c['kwargs'].items()}; "
+                "print(np.asarray(getattr(einx,c['op'])(c['desc'], *[np.array(a) for a in d['inputs']], **kw)).tolist())") % (common.REPO, path)
+        res = set()
+        for s in [data.get("seed_a", 0), data.get("seed_b", 1), 5, 6, 7, 8]:
+            o = subprocess.run([sys.executable, "-c", code], env=dict(os.environ, PYTHONHASHSEED=str(s)), capture_output=True, text=True)
+            print("PYTHONHASHSEED", s, "->", o.stdout.strip()[:300], o.stderr.strip()[-200:])
+            res.add(o.stdout.strip() + "|" + o.stderr.strip().splitlines()[-1][:60] if o.stderr.strip() else o.stdout.strip())
+        if len(res) > 1:
+            print(f"VIOLATION property=C16 replay={path}")
+            return 1
+    # 2. the two processes of the original run (the difference may need the calls that came before)
+    corpus = data.get("corpus")
+    if corpus and "case_index" in data:
+        cases = build_cases(random.Random(corpus["verif_seed"]), corpus["tier"])
+        seeds = seeds_of(corpus["tier"])
+        outs, crashed = run_workers(cases, seeds, which={data.get("process_a", 0), data.get("process_b", 1)})
+        k = data["case_index"]
+        ds = {s: o["digests"][k] for s, o in outs.items()}
+        print("digests of case", k, "in the two processes:", ds)
+        if len(set(ds.values())) > 1:
+            print(f"VIOLATION property=C16 replay={path}")
+            return 1
     return 0
